@@ -13,6 +13,30 @@ use automerge::{ActorId, AutoCommit, Automerge, Bundle, Change, ChangeHash, Curs
 use serde_json::json;
 use std::str::FromStr;
 
+/// Decoders that take document / change / bundle bytes share one known root cause on the unchanged
+/// tree (the column layer and `Document::reconstruct` do not validate what they decode), so their
+/// panics are keyed on the source file only; every other decoder keeps function-precise signatures.
+fn stage_group(dec: &str) -> &'static str {
+    match dec {
+        "load" | "load_partial_ignore" | "load_unverified" | "load_migrate" | "load_incremental" | "load_incremental_empty_doc" | "rescue" => "document-or-change-bytes",
+        "change_from_bytes" => "change-bytes",
+        "bundle" => "bundle-bytes",
+        "message_decode" => "sync-message",
+        "state_decode" => "sync-state",
+        "bloom" => "bloom",
+        "cursor_bytes" | "cursor_str" => "cursor",
+        "objid_bytes" | "import" | "import_obj" => "object-id",
+        _ => "other",
+    }
+}
+
+fn panic_sig_for(dec: &str, p: &str) -> String {
+    match stage_group(dec) {
+        "document-or-change-bytes" | "change-bytes" | "bundle-bytes" => panic_sig_file(p),
+        _ => panic_sig_fn(p),
+    }
+}
+
 pub struct C13;
 pub struct C14;
 pub struct C15;
@@ -509,7 +533,7 @@ impl Check for C15 {
             cx.add("input_bytes", input.len() as u64);
             let before: u64 = cx.counters.iter().filter(|(k, _)| k.starts_with("accepted_")).map(|(_, v)| *v).sum();
             if let Some((dec, p)) = all_byte_decoders(cx, &input, enc, &mut target) {
-                cx.violation(&format!("{}|{dec}", panic_sig_fn(&p)), format!("{dec} panicked on a {}-byte input ({} mutant of a {} sample): {p}", input.len(), how, s.kind), json!({"decoder": dec, "mutation": how, "sample_kind": s.kind, "input_hex": hex::encode(&input[..input.len().min(600)]), "input_len": input.len()}));
+                cx.violation(&format!("{}|{}", panic_sig_for(&dec, &p), stage_group(&dec)), format!("{dec} panicked on a {}-byte input ({} mutant of a {} sample): {p}", input.len(), how, s.kind), json!({"decoder": dec, "mutation": how, "sample_kind": s.kind, "input_hex": hex::encode(&input[..input.len().min(600)]), "input_len": input.len()}));
                 continue;
             }
             let after: u64 = cx.counters.iter().filter(|(k, _)| k.starts_with("accepted_")).map(|(_, v)| *v).sum();
@@ -575,7 +599,7 @@ impl Check for C16 {
             };
             let loaded = match catch(|| load_enc(&candidate, enc)) {
                 Err(p) => {
-                    cx.violation(&format!("{}|load", panic_sig_fn(&p)), format!("load panicked on a mutated document ({how}): {p}"), json!({"mutation": how, "input_hex": hex::encode(&candidate[..candidate.len().min(800)])}));
+                    cx.violation(&format!("{}|load", panic_sig_file(&p)), format!("load panicked on a mutated document ({how}): {p}"), json!({"mutation": how, "input_hex": hex::encode(&candidate[..candidate.len().min(800)])}));
                     return;
                 }
                 Ok(Err(_)) => continue,
@@ -590,7 +614,7 @@ impl Check for C16 {
             let o = match catch(|| observe(&d, None)) {
                 Ok(o) => o,
                 Err(p) => {
-                    cx.violation(&format!("{}|reads", panic_sig_fn(&p)), format!("reading an accepted mutated document ({how}) panicked: {p}"), detail("reads"));
+                    cx.violation(&format!("{}|reads", panic_sig_file(&p)), format!("reading an accepted mutated document ({how}) panicked: {p}"), detail("reads"));
                     return;
                 }
             };
@@ -613,7 +637,7 @@ impl Check for C16 {
             });
             match r {
                 Err(p) => {
-                    cx.violation(&format!("{}|save-load", panic_sig_fn(&p)), format!("save/load of an accepted mutated document ({how}) panicked: {p}"), detail("save-load"));
+                    cx.violation(&format!("{}|save-load", panic_sig_file(&p)), format!("save/load of an accepted mutated document ({how}) panicked: {p}"), detail("save-load"));
                     return;
                 }
                 Ok(Err(e)) => {
@@ -641,7 +665,7 @@ impl Check for C16 {
             cx.count("edited_after_accept");
             match r {
                 Err(p) => {
-                    cx.violation(&format!("{}|edit", panic_sig_fn(&p)), format!("editing an accepted mutated document ({how}) panicked: {p}"), detail("edit"));
+                    cx.violation(&format!("{}|edit", panic_sig_file(&p)), format!("editing an accepted mutated document ({how}) panicked: {p}"), detail("edit"));
                     return;
                 }
                 Ok(bytes) => {
@@ -661,7 +685,7 @@ impl Check for C16 {
                 let _ = p2.merge(&mut d2);
                 let _ = observe_opts(&p2, None, false);
             }) {
-                cx.violation(&format!("{}|merge", panic_sig_fn(&p)), format!("merging an accepted mutated document ({how}) with a pristine replica panicked: {p}"), detail("merge"));
+                cx.violation(&format!("{}|merge", panic_sig_file(&p)), format!("merging an accepted mutated document ({how}) with a pristine replica panicked: {p}"), detail("merge"));
                 return;
             }
         }
@@ -885,6 +909,11 @@ impl Check for C17 {
 impl Check for C39 {
     fn id(&self) -> &'static str {
         "C39"
+    }
+    fn max_aborted_pct(&self) -> u64 {
+        // the inputs of this check are hostile documents: the unchanged tree aborts on many of them
+        // (C15/C17 report that); what decides C39 are its required observations
+        60
     }
     fn in_panic_watch(&self) -> bool {
         false
